@@ -11,8 +11,8 @@
   abstracted away in `Str` and modelled explicitly where it is semantically relevant, i.e. in the
   unistring key / hash-preimage encoding (`keyOf`, `asUtf16`, `stringValueFromRaw`).
 
-  importedString: `u` is a function of `s` (`unistring.Scan`) once `scanned`; before that it is nil.  So the model
-  keeps `(s, scanned)`; the Go field read `i.u` is `impU s scanned`.
+  importedString: `u` is a function of `s` (`unistring.Scan`) once scanned (sync.Once + atomic flag since 7f47297);
+  `u` is only read after ensureScanned()/isScanned().  So the model keeps `(s, scanned)`.
 -/
 namespace GojaModel.C06
 
@@ -128,9 +128,6 @@ def tag : Str → String
   | .uni _ => "uni"
   | .imp _ _ => "imp"
 
-/-- the Go field read `i.u` (nil before the scan). -/
-def impU (s : List UInt8) (scanned : Bool) : Option (List UInt16) := if scanned then scan s else none
-
 /-- effect of `ensureScanned` on the operand -/
 def touch : Str → Str
   | .imp s _ => .imp s true
@@ -195,15 +192,30 @@ def dvConcat : DV → Str → Str
   | .a s, y => asciiConcat s y
   | .u s, y => uniConcat s y
 
+/-- `len(v.s) == 0 || utf8.RuneStart(v.s[0])` (string_imported.go:196, guard added by 3293be7):
+the right operand does not start with a UTF-8 continuation byte. -/
+def junctionSafe : List UInt8 → Bool
+  | [] => true
+  | b :: _ => !isCont b
+
 def concat (x y : Str) : Str :=
   match x, y with
-  | .imp s false, .imp t false => .imp (s ++ t) false    -- unscanned + unscanned shortcut (string_imported.go:180)
+  | .imp s false, .imp t false =>
+    -- unscanned + unscanned shortcut: join the Go strings (string_imported.go:192-199)
+    if junctionSafe t then .imp (s ++ t) false else dvConcat (devirt (.imp s false)) (.imp t false)
+  | x, y => dvConcat (devirt x) y
+
+/-- the shortcut as it was before 3293be7 (no junction guard); kept for the regression witness only -/
+def concatOld (x y : Str) : Str :=
+  match x, y with
+  | .imp s false, .imp t false => .imp (s ++ t) false
   | x, y => dvConcat (devirt x) y
 
 /-- operand states after `x.Concat(y)` -/
 def concatFx (x y : Str) : Str × Str :=
   match x, y with
-  | .imp s false, .imp t false => (.imp s false, .imp t false)
+  | .imp s false, .imp t false =>
+    if junctionSafe t then (.imp s false, .imp t false) else (.imp s true, .imp t true)
   | x, y => (touch x, touch y)
 
 /-! ## Substring (string_ascii.go:341, string_unicode.go:489, string_imported.go:191) -/
@@ -253,7 +265,7 @@ def compareTo (x y : Str) : Int :=
 def strictEq : Str → Str → Bool
   -- asciiString.StrictEquals (string_ascii.go:293)
   | .ascii s, .ascii t => s == t
-  | .ascii s, .imp t sc => if (impU t sc).isNone then s == t else false     -- reads otherStr.u without scanning
+  | .ascii s, .imp t _ => s == t       -- no scan: non-ASCII bytes never equal an ASCII string (string_ascii.go:336)
   | .ascii _, .uni _ => false
   -- unicodeString.StrictEquals (string_unicode.go:439)
   | .uni s, .uni t => s == t
@@ -262,7 +274,7 @@ def strictEq : Str → Str → Bool
     | none => false
   | .uni _, .ascii _ => false
   -- importedString.StrictEquals (string_imported.go:109)
-  | .imp s sc, .ascii t => if (impU s sc).isSome then false else s == t
+  | .imp s _, .ascii t => s == t       -- string_imported.go:128
   | .imp s _, .uni t => match scan s with
     | some u => u == t
     | none => false
